@@ -130,6 +130,9 @@ type RequestSpec struct {
 	// LinearFeed, when set, replaces the fork-free block source of the tier1 linear phase.
 	LinearFeed func(ctx context.Context, h bstream.Handler, start, stop uint64, cursor string) error `json:"-"`
 	StuckAfter      time.Duration         `json:"-"` // no job in flight and no data message for this long => stuck (default 20s)
+	// LiveLag > 0: a live chain - above the finality point known at request time, every block n arrives as "new" with
+	// LIB n-LiveLag, followed by the "irreversible" signals of the blocks that became final.
+	LiveLag int `json:"live_lag,omitempty"`
 	// Tier2Feed, when set, replaces the fork-free block source of every tier2 job of this request.
 	Tier2Feed func(ctx context.Context, h bstream.Handler, start, stop uint64) error `json:"-"`
 	// CursorResolver overrides the resolver of non-final start cursors (default: fork-free chain).
@@ -269,6 +272,7 @@ type linearStream struct {
 	// cursorIsTarget: the stream starts at `start` and merely passes through the cursor's block (stream.WithTargetCursor);
 	// otherwise it resumes right after the cursor's block (stream.WithCursor)
 	cursorIsTarget bool
+	lastFinalSent  uint64
 }
 
 func (s *linearStream) Run(ctx context.Context) error {
@@ -322,7 +326,11 @@ func (s *linearStream) Run(ctx context.Context) error {
 		} else if !s.tier1 || n <= s.final {
 			obj = &Obj{Cur: &bstream.Cursor{Step: bstream.StepNewIrreversible, Block: ref, LIB: ref, HeadBlock: ref}, StepType: bstream.StepNewIrreversible}
 		} else {
-			lib := bstream.NewBlockRef(BlockID(s.final), s.final)
+			libNum := s.final
+			if lag := uint64(s.rs.spec.LiveLag); lag > 0 && n > lag && n-lag > libNum {
+				libNum = n - lag // a live chain: finality follows the head at a distance
+			}
+			lib := bstream.NewBlockRef(BlockID(libNum), libNum)
 			obj = &Obj{Cur: &bstream.Cursor{Step: bstream.StepNew, Block: ref, LIB: lib, HeadBlock: ref}, StepType: bstream.StepNew}
 		}
 		blk := MakeBlock(n, id, parent, obj.Cur.LIB.Num())
@@ -332,6 +340,28 @@ func (s *linearStream) Run(ctx context.Context) error {
 				return err
 			}
 			return fmt.Errorf("process block %d: %w", n, err)
+		}
+		if lag := uint64(s.rs.spec.LiveLag); s.tier1 && lag > 0 && !s.rs.spec.FinalBlocksOnly && n > s.final && n > lag {
+			time.Sleep(2 * time.Millisecond) // a live chain is paced by block production: leaves room for the background jobs
+			// the fork resolver then signals every block that became final, in order, as a plain "irreversible" step
+			if s.lastFinalSent < s.final {
+				s.lastFinalSent = s.final
+			}
+			for m := s.lastFinalSent + 1; m <= n-lag; m++ {
+				mref := bstream.NewBlockRef(BlockID(m), m)
+				mparent := ""
+				if m > 0 {
+					mparent = BlockID(m - 1)
+				}
+				fobj := &Obj{Cur: &bstream.Cursor{Step: bstream.StepIrreversible, Block: mref, LIB: mref, HeadBlock: ref}, StepType: bstream.StepIrreversible}
+				if err := s.h.ProcessBlock(MakeBlock(m, BlockID(m), mparent, m), fobj); err != nil {
+					if errors.Is(err, io.EOF) {
+						return err
+					}
+					return fmt.Errorf("process irreversible signal for block %d: %w", m, err)
+				}
+				s.lastFinalSent = m
+			}
 		}
 		if pipe != nil {
 			s.rs.mu.Lock()
